@@ -265,6 +265,14 @@ func summary(id, tier string, results []*JobResult, r *Runner, wall time.Duratio
 	}
 	fmt.Printf("SUMMARY property=%s tier=%s jobs=%d paths=%d completed=%d not_explored=%d queries=%d unknown_queries=%d solver_s=%.1f violations_new=%d known=%d engine_mismatch=%d wall_s=%.1f\n",
 		id, tier, len(results), paths, completed, notExp, r.Queries, r.SolverUnknown, r.SolverTime.Seconds(), nNew, nKnown, nMismatch, wall.Seconds())
+	top := append([]*JobResult{}, results...)
+	sort.Slice(top, func(i, j int) bool { return top[i].Paths > top[j].Paths })
+	for i, jr := range top {
+		if i >= 3 || jr.Paths < 1000 {
+			break
+		}
+		fmt.Printf("  biggest job %s paths=%d\n", jr.Job.ID(), jr.Paths)
+	}
 	keys := sortedKeys(ends)
 	sort.Slice(keys, func(i, j int) bool { return ends[keys[i]] > ends[keys[j]] })
 	for i, k := range keys {
